@@ -206,3 +206,15 @@ add("r06_4_sticky_plus", "C06", "R06.4", "to_f32_nontrivial",
 
 add("r10_7_tiny_value_digits", "C10", "R10.7", "to_int",
     [("float/src/convert.rs", "        if self.repr.smaller_than_one() {\n            // |self| < 1 / B^2 <= 1/4: count one digit more", "        if false && self.repr.smaller_than_one() {\n            // |self| < 1 / B^2 <= 1/4: count one digit more")])
+
+# ---- rules added after wave 4 --------------------------------------------------------------------
+add("r01_5_swap_without_neg", "C01", "R01.5", "sub_signed",
+    [("integer/src/add_ops.rs", "                (RefLarge(words0), Large(buffer1)) => sub_large(buffer1, words0).neg(),", "                (RefLarge(words0), Large(buffer1)) => sub_large(buffer1, words0),")])
+add("r17_5_read_before_len_check", "C17", "R17.5", "pop_zeros",
+    [("integer/src/buffer.rs", "                while ptr::read(tail_ptr) == 0 {\n                    self.len -= 1;\n                    if self.len == 0 {\n                        break;\n                    }\n                    tail_ptr = tail_ptr.sub(1);", "                while ptr::read(tail_ptr) == 0 && self.len > 0 {\n                    self.len -= 1;\n                    tail_ptr = tail_ptr.wrapping_sub(1);")])
+add("r17_8_realloc_new_layout", "C17", "R17.8", "reallocate_raw",
+    [("integer/src/buffer.rs", "                alloc::alloc::realloc(self.ptr.as_ptr() as _, old_layout, new_layout.size());", "                alloc::alloc::realloc(self.ptr.as_ptr() as _, new_layout, new_layout.size());\n            let _ = old_layout;")])
+add("r19_6_pointer_width", "C19", "R19.6", "WORD_BITS",
+    [("float/src/utils.rs", "    let n_words = shift / Word::BITS as usize;", "    const WORD_BITS: usize = usize::BITS as usize;\n    let n_words = shift / WORD_BITS;")])
+add("r20_4_host_sized_const", "C20", "R20.4", "u64",
+    [("macros/src/parse/int.rs", "    if big.bit_len() <= 32 && !static_ {\n        let u: u32 = big.try_into().unwrap();", "    if big.bit_len() <= 64 && !static_ {\n        let u: u64 = big.try_into().unwrap();")])
